@@ -55,6 +55,7 @@ PrivilegedKinds(c) ==
     [] c = "stsei" -> {"mint", "burn", "update_minter", "update_marketing", "upload_logo"}
     [] OTHER -> {}
 C10_Step(w1, e, w2) ==
+  (e.tx.k # "instantiate") =>
   /\ (e.ok /\ IsExecEv(e) /\ TopTx(e).msg.k \in PrivilegedKinds(TopTx(e).c))
         => TopTx(e).sender \in Allowed(TopTx(e).c, TopTx(e).msg.k, w1)
   /\ e.ok => \A i \in 1..Len(e.fx) :
@@ -196,9 +197,12 @@ C17_Step(w1, e, w2) == C17_Swap(w1, e, w2) /\ C17_Dispatch(w1, e, w2)
 C18_Conserved(w0) == SumBalances(w0.bsei) = w0.bsei.supply /\ SumBalances(w0.stsei) = w0.stsei.supply
 TokStep(w1, e, w2, c) ==
   LET t1 == w1[c]  t2 == w2[c]  m == TopTx(e).msg  sp == TopTx(e).sender IN
-  /\ (Committed(e, c, "transfer") \/ Committed(e, c, "send")) =>
+  /\ Committed(e, c, "transfer") =>
         /\ t2.supply = t1.supply /\ m.amount >= 1 /\ t1.bal[sp] >= m.amount
-        /\ t2.bal[sp] <= t1.bal[sp]
+        /\ (m.recipient # sp => t2.bal[sp] = t1.bal[sp] - m.amount)
+        /\ (m.recipient \in Accts \ {sp} => t2.bal[m.recipient] = t1.bal[m.recipient] + m.amount)
+        /\ \A a \in Accts \ {sp, m.recipient} : t2.bal[a] = t1.bal[a]
+  /\ Committed(e, c, "send") => m.amount >= 1 /\ t1.bal[sp] >= m.amount /\ t2.supply <= t1.supply
   /\ (Committed(e, c, "transfer_from") \/ Committed(e, c, "send_from") \/ Committed(e, c, "burn_from")) =>
         LET al == t1.allow[m.owner][sp] IN
         /\ al.has /\ ~IsExpired(al.exp, w1) /\ m.amount <= al.amt
